@@ -352,8 +352,8 @@ pub fn run(run: &'static Run) {
          sub `triples`: base = every line sequence over {a, b, empty} of length 0..=3 in formats {all LF, all CRLF} x {final newline, none} \
          (+ thorough: first line terminated differently from the rest); ours = every text within 2 edits of the base, theirs likewise, \
          edit = insert a line (ours: x|z|a|empty, theirs: y|z|a|empty) at any position, delete a line, replace a line's content, toggle the final \
-         newline, flip one line's terminator LF<->CRLF; total edits (ours+theirs): all pairs (<= 4) for base length 0..=2; \
-         for length 3 quick: <= 2, thorough: <= 3. \
+         newline, flip one line's terminator LF<->CRLF; total edits (ours+theirs): all pairs (<= 4) for base length 0..=1; \
+         for length 2 quick: <= 3, thorough: <= 4; for length 3 quick: <= 2, thorough: <= 3. \
          Every triple is merged under styles {merge,diff3,zdiff3} x marker sizes {1,7,20} (labels on for odd sizes, plus size 7 without \
          labels) and resolutions {ours,theirs,union}, diff algorithm Myers (thorough: + Histogram). \
          sub `identities`: base length 0..=3 (thorough 0..=4) over {a, b, empty}, side within 2 edits (contents x|a|empty); merges (base,base,side), \
@@ -380,7 +380,8 @@ pub fn run(run: &'static Run) {
                 // bound on the total number of edits (ours + theirs); each side has at most 2
                 let max_total = match (quick, base.len()) {
                     (_, 0..=1) => 4,
-                    (_, 2) => 4,
+                    (true, 2) => 3,
+                    (false, 2) => 4,
                     (true, _) => 2,
                     (false, _) => 3,
                 };
